@@ -185,7 +185,7 @@ func script(seed int64, idx int) {
 			w.Sim.Mutate("emit", func(s *alphsim.Sim) {
 				b := w.NewBlock(s, fresh)
 				for i := 0; i < n; i++ {
-					kind := []string{"transfer", "transfer", "attest", "attest-mismatch", "attest-bad-token", "attest-long-name", "foreign-sender", "other"}[rng.Intn(8)]
+					kind := []string{"transfer", "transfer", "attest", "attest-mismatch", "attest-bad-token", "attest-long-name", "attest-alph", "attest-alph-forged", "foreign-sender", "other"}[rng.Intn(10)]
 					cl := cls[rng.Intn(len(cls))]
 					tx, _ := w.EmitTx(s, b, kind, cl, rng.Intn(3) == 0)
 					w.Tr(fmt.Sprintf("emit %s cl=%d fresh=%v tx=%s block=%s height=%d", kind, cl, fresh, tx[:8], b.Hash[:8], b.Height))
